@@ -150,7 +150,9 @@ namespace _ST_PRIVATE
 
         typedef typename std::make_unsigned<int_T>::type uint_T;
         ST::uint_formatter<uint_T> formatter;
-        formatter.format(static_cast<uint_T>(std::abs(value)), radix, upper_case);
+        const uint_T abs_value = value < 0 ? 0 - static_cast<uint_T>(value)
+                                           :     static_cast<uint_T>(value);
+        formatter.format(abs_value, radix, upper_case);
 
         const numeric_type ntype = (value == 0) ? numeric_zero
                                  : (value < 0) ? numeric_negative
